@@ -414,6 +414,25 @@ fn instances(tier: Tier) -> Vec<Inst> {
 fn adaptor_stream_checks(acc: &mut crate::report::Acc) {
     let dgram_sets: Vec<Vec<usize>> = vec![vec![800, 800, 800, 800], vec![1020, 4, 1020, 4], vec![4; 12], vec![252, 1016, 8, 600], vec![1020, 1020, 1020]];
     let read_sets: Vec<Vec<usize>> = vec![vec![2000, 1200], vec![1, 3, 1019, 5], vec![1020, 1020], vec![7; 9], vec![3000], vec![1021, 1021]];
+    // the tokio adaptor also implements std::io::Read (try_recv): plain reads of k bytes at a time
+    for ds in &dgram_sets {
+        for rs in &read_sets {
+            let payloads: Vec<Vec<u8>> = ds.iter().enumerate().map(|(k, l)| (0..*l).map(|x| ((x * 7 + k * 31) % 251) as u8).collect()).collect();
+            let want: Vec<u8> = payloads.concat();
+            acc.eval();
+            let desc = format!("tokio adaptor through std::io::Read: datagrams {ds:?} consumed by reads of at most {rs:?} bytes");
+            let replay = json!({"site": "adaptor-stream", "case": desc});
+            match guard(|| tokio_sync_read_case(&payloads, rs)) {
+                Err(p) => acc.violate(0, "C08|Tokio|adaptor-stream|panic".into(), format!("{desc}: {p}"), replay),
+                Ok(Err(e)) => acc.violate(0, "C08|Tokio|adaptor-stream|bytes-lost".into(), format!("{desc}: {e}"), replay),
+                Ok(Ok(got)) if got == want => { acc.class("adaptor-stream-intact"); acc.nontrivial(); },
+                Ok(Ok(got)) => {
+                    let at = got.iter().zip(&want).position(|(a, b)| a != b).unwrap_or(got.len().min(want.len()));
+                    acc.violate(0, "C08|Tokio|adaptor-stream|bytes-altered".into(), format!("{desc}: first difference at byte {at} ({} of {} bytes read)", got.len(), want.len()), replay)
+                },
+            }
+        }
+    }
     for imp in [Impl::Blocking, Impl::Tokio] {
         for ds in &dgram_sets {
             for rs in &read_sets {
@@ -445,6 +464,41 @@ fn adaptor_stream_checks(acc: &mut crate::report::Acc) {
             }
         }
     }
+}
+
+fn tokio_sync_read_case(payloads: &[Vec<u8>], sizes: &[usize]) -> Result<Vec<u8>, String> {
+    let rt = tokio::runtime::Builder::new_current_thread().enable_io().enable_time().build().unwrap();
+    rt.block_on(async {
+        let peer = tokio::net::UdpSocket::bind("127.0.0.1:0").await.map_err(|e| e.to_string())?;
+        let sock = tokio::net::UdpSocket::bind("127.0.0.1:0").await.map_err(|e| e.to_string())?;
+        sock.connect(peer.local_addr().unwrap()).await.map_err(|e| e.to_string())?;
+        peer.connect(sock.local_addr().unwrap()).await.map_err(|e| e.to_string())?;
+        let mut s = tokio_impl::UdpStream::from(sock);
+        for p in payloads {
+            let _ = peer.send(p).await.map_err(|e| e.to_string())?;
+        }
+        let total: usize = payloads.iter().map(|p| p.len()).sum();
+        let mut got = vec![];
+        let mut j = 0usize;
+        let deadline = std::time::Instant::now() + WATCHDOG_CONFIRM;
+        while got.len() < total {
+            let k = sizes[j % sizes.len()].min(2048);
+            let mut b = vec![0u8; k];
+            match std::io::Read::read(&mut s, &mut b) {
+                Ok(0) => return Err(format!("read returned 0 after {} of {total} byte(s)", got.len())),
+                Ok(n) => { got.extend_from_slice(&b[..n]); j += 1; },
+                Err(e) if e.kind() == std::io::ErrorKind::WouldBlock => {
+                    if std::time::Instant::now() > deadline {
+                        return Err(format!("no more data after {} of {total} byte(s) (bytes of a datagram were lost)", got.len()));
+                    }
+                    tokio::time::sleep(Duration::from_millis(1)).await;
+                },
+                Err(e) => return Err(format!("read failed after {} byte(s): {e}", got.len())),
+            }
+            if got.len() > total { break; }
+        }
+        Ok(got)
+    })
 }
 
 fn adaptor_stream_case(imp: Impl, payloads: &[Vec<u8>], plan: &[usize]) -> Result<Vec<u8>, String> {
